@@ -1,4 +1,1192 @@
-(* Mem.v -- stub; the model that belongs here is being written. *)
-From P7 Require Import Prelude.
+(* Mem.v -- live-byte accounting over the Decomp.v state machine (property C20:
+   streaming in bounded memory), and a model of the block loop of
+   SevenZipCompressor.compress (compressor.py l.893-908).
+
+   Part 1 "Model"  : computable definitions (extracted; FN 340-359).
+   Part 2 "Proofs" : bounds for chains whose stages honour max_length, bounds
+                     proportional to block_size x expansion for stages that
+                     ignore it, the refutation/characterisation with the toy
+                     expander, and the write-side bound.
+   What is counted: the byte strings py7zr itself holds around one call of
+   SevenZipDecompressor.decompress -- _buf before and after, the block read from
+   fp, the chain's result tmp, the returned chunk -- plus an abstract term
+   [held] for memory inside the codec objects (dictionaries, retained input),
+   which is measured by the harness, not proved.
+   stdlib only; no axioms. *)
+From Coq Require Import ZifyBool.
+From P7 Require Import Prelude Decomp.
 Open Scope Z_scope.
-Definition mem_dispatch (fn : Z) (a : tree) : tree := TL [TI (-2)].
+
+(* ===================================================================== *)
+(*                              PART 1 : MODEL                           *)
+(* ===================================================================== *)
+
+(* ---- toy decoder stages with a memory profile ------------------------ *)
+(* state = (tag, k, pending), as Decomp.toy_state.
+   tag 1 : lagging copy (Decomp.toy_dstep): honours max_length, retains input
+   tag 2 : expander: every input byte k times; IGNORES max_length
+           (DeflateDecompressor/ZstdDecompressor/BrotliDecompressor shape)
+   tag 3 : expander that honours max_length: expands only as many whole input
+           bytes as fit into max_length and keeps the rest of its INPUT inside
+           (lzma/bz2 shape: bounded output per call, unconsumed input retained)
+   other : copy, ignores max_length (CopyDecompressor/BCJ shape) *)
+Fixpoint rep_each (k : nat) (l : bytes) : bytes :=
+  match l with [] => [] | x :: t => repeatZ x k ++ rep_each k t end.
+
+Definition mtoy_dstep (s : toy_state) (data : bytes) (ml : Z) : toy_state * bytes :=
+  let '(tag, k, pend) := s in
+  if tag =? 1 then toy_dstep s data ml
+  else if tag =? 2 then (s, rep_each (Z.to_nat k) data)
+  else if tag =? 3 then
+    let avail := pend ++ data in
+    let n := if (ml <? 0) || (k <=? 0) then length avail
+             else Nat.min (length avail) (Z.to_nat (ml / k)) in
+    ((tag, k, skipn n avail), rep_each (Z.to_nat k) (firstn n avail))
+  else (s, data).
+
+Definition mtoy_held (s : toy_state) : Z := zlen (snd s).
+
+Section Acct.
+  Variable stage_st : Type.
+  Variable dstep : stage_st -> bytes -> Z -> stage_st * bytes.
+  Variable held : stage_st -> Z.
+
+  Definition sum_held (ss : list stage_st) : Z := fold_right (fun s a => held s + a) 0 ss.
+
+  (* bytes fp.read returned during the call *)
+  Definition read_len (st st' : dstate stage_st) : Z := consumed st' - consumed st.
+
+  (* length of tmp = self._decompress(...) in the call, recovered from the flow
+     equation  _buf[_pos:] ++ tmp = res ++ _buf'[_pos':]  (Decomp.decompress_spec) *)
+  Definition tmp_len (st st' : dstate stage_st) (out : bytes) : Z :=
+    zlen out + (zlen (buf st') - pos st') - (zlen (buf st) - pos st).
+
+  (* byte strings managed by py7zr that may be alive at once during the call:
+     old _buf, new _buf, tmp, res, and the block read from fp *)
+  Definition managed (st st' : dstate stage_st) (out : bytes) : Z :=
+    zlen (buf st) + zlen (buf st') + zlen out + tmp_len st st' out + read_len st st'.
+
+  Definition live (st st' : dstate stage_st) (out : bytes) : Z :=
+    managed st st' out + sum_held (stages st').
+
+  (* inside _decompress: the largest len(input)+len(output) of one stage *)
+  Fixpoint chain_peak (ss : list stage_st) (up us : list Z) (data : bytes) (ml : Z) : Z :=
+    match ss with
+    | [] => 0
+    | s :: ss' =>
+      match up, us with
+      | u :: up', z :: us' =>
+        if u <? z then
+          let '(_, out) := dstep s data ml in
+          Z.max (zlen data + zlen out) (chain_peak ss' up' us' out ml)
+        else if zlen data =? 0 then chain_peak ss' up' us' [] ml
+        else 0
+      | _, _ => 0
+      end
+    end.
+
+  (* the same for one call of decompress: 0 when the call is served from _buf,
+     otherwise the chain runs on the bytes this call read from fp *)
+  Definition call_chain_peak (st st' : dstate stage_st) (ml : Z) : Z :=
+    if (0 <=? ml) && (zlen (buf st) - pos st >=? ml) then 0
+    else chain_peak (stages st) (unpacked st) (unpacksizes st)
+                    (firstn (Z.to_nat (read_len st st')) (fp_rest st)) ml.
+
+  (* [len res; len _buf'; _pos'; bytes read; len tmp; managed; live; chain peak] *)
+  Definition acct (st st' : dstate stage_st) (ml : Z) (out : bytes) : list Z :=
+    [zlen out; zlen (buf st'); pos st'; read_len st st'; tmp_len st st' out;
+     managed st st' out; live st st' out; call_chain_peak st st' ml].
+
+  Fixpoint acct_trace (st : dstate stage_st) (calls : list (Z * nat))
+    : list (res (bytes * list Z)) :=
+    match calls with
+    | [] => []
+    | (ml, rd) :: calls' =>
+      match decompress dstep st ml rd with
+      | Ok (st', out) => Ok (out, acct st st' ml out) :: acct_trace st' calls'
+      | Err e => [Err e]
+      end
+    end.
+
+  (* Worker.decompress with the maximum of [managed] over its calls *)
+  Fixpoint worker_peak (fuel : nat) (st : dstate stage_st) (size max_block : Z)
+           (sched : list nat) : res (dstate stage_st * bytes * Z) :=
+    if size >? 0 then
+      match fuel with
+      | O => Err EFuel
+      | S fuel' =>
+        do r <- decompress dstep st (Z.min size max_block) (sched_hd st sched);
+        let '(st', tmp) := r in
+        let m := managed st st' tmp in
+        let rem := if zlen tmp >? 0 then size - zlen tmp else size in
+        if rem <=? 0 then Ok (st', tmp, m)
+        else
+          do r' <- worker_peak fuel' st' rem max_block (tl sched);
+          let '(st'', out, pk) := r' in
+          Ok (st'', tmp ++ out, Z.max m pk)
+      end
+    else Ok (st, [], 0).
+
+  (* what the carry-over buffer is after a sequence of calls *)
+  Definition clean (st : dstate stage_st) : Prop :=
+    buf st = [] /\ pos st = 0 /\ unused st = [].
+
+  Definition buf_inv (st : dstate stage_st) : Prop :=
+    0 <= pos st <= zlen (buf st) /\ unused st = [].
+End Acct.
+
+Arguments sum_held {stage_st}.
+Arguments read_len {stage_st}.
+Arguments tmp_len {stage_st}.
+Arguments managed {stage_st}.
+Arguments live {stage_st}.
+Arguments acct {stage_st}.
+Arguments chain_peak {stage_st}.
+Arguments call_chain_peak {stage_st}.
+Arguments acct_trace {stage_st}.
+Arguments worker_peak {stage_st}.
+Arguments clean {stage_st}.
+Arguments buf_inv {stage_st}.
+
+(* affine expansion iterated over a chain of n stages: x |-> r*x + c0 *)
+Fixpoint exp_iter (r c0 : Z) (n : nat) (x : Z) : Z :=
+  match n with O => x | S n' => exp_iter r c0 n' (r * x + c0) end.
+
+(* ---- write side: SevenZipCompressor.compress -------------------------- *)
+(* fd.read(n): a negative n reads everything *)
+Definition fd_read (fd : bytes) (n : Z) (k : nat) : bytes * bytes :=
+  if n <? 0 then (fd, []) else fp_read fd n k.
+
+Section Comp.
+  Variable cstage : Type.
+  Variable cstep : cstage -> bytes -> cstage * bytes.   (* compressor.compress(data) *)
+
+  (* for i, compressor in enumerate(self.chain): data = compressor.compress(data)
+     result: stages', final data, max over stages of len(input)+len(output) *)
+  Fixpoint cchain (ss : list cstage) (data : bytes) : list cstage * bytes * Z :=
+    match ss with
+    | [] => ([], data, zlen data)
+    | s :: ss' =>
+      let '(s', out) := cstep s data in
+      let '(ss'', d, pk) := cchain ss' out in
+      (s' :: ss'', d, Z.max (zlen data + zlen out) pk)
+    end.
+
+  (* the while loop; result: stages, bytes written to fp, insize, peak of
+     (input + output of one stage), and per iteration (len read, len written).
+     crc, digest, packsize and _unpacksizes are not modelled. *)
+  Fixpoint compress_loop (fuel : nat) (ss : list cstage) (fd : bytes) (bs : Z)
+           (sched : list nat) : res (list cstage * bytes * Z * Z * list (Z * Z)) :=
+    match fuel with
+    | O => Err EFuel
+    | S fuel' =>
+      let '(data, rest) := fd_read fd bs (hd (length fd) sched) in
+      if zlen data =? 0 then Ok (ss, [], 0, 0, [])
+      else
+        let '(ss', out, pk) := cchain ss data in
+        do r <- compress_loop fuel' ss' rest bs (tl sched);
+        let '(ss'', w, n, pk', log) := r in
+        Ok (ss'', out ++ w, zlen data + n, Z.max pk pk', (zlen data, zlen out) :: log)
+    end.
+End Comp.
+
+Arguments cchain {cstage}.
+Arguments compress_loop {cstage}.
+
+(* toy compressor: state = (k, pending); keeps the last k bytes back *)
+Definition ctoy_state : Type := (Z * bytes)%type.
+Definition ctoy_step (s : ctoy_state) (data : bytes) : ctoy_state * bytes :=
+  let '(k, pend) := s in
+  let avail := pend ++ data in
+  let n := (length avail - Z.to_nat k)%nat in
+  ((k, skipn n avail), firstn n avail).
+Definition ctoy_held (s : ctoy_state) : Z := zlen (snd s).
+
+(* ---- driver entry points ---------------------------------------------- *)
+Definition t_acct (x : bytes * list Z) : tree := TL [t_bytes (fst x); TL (map TI (snd x))].
+
+(* args: [states; unpacksizes; input_size; block_size; packed; calls] *)
+Definition mem_toy_trace_t (t : tree) : tree :=
+  TL (map (t_res t_acct)
+          (acct_trace mtoy_dstep mtoy_held
+             (init_state (map t_toy_state (of_TL (tnth t 0))) (map of_TI (of_TL (tnth t 1)))
+                         (of_TI (tnth t 2)) (of_TI (tnth t 3)) (of_bytes (tnth t 4)))
+             (map t_call (of_TL (tnth t 5))))).
+
+(* args: [fuel; states; unpacksizes; input_size; block_size; packed; size; mb; sched] *)
+Definition mem_toy_worker_t (t : tree) : tree :=
+  t_res (fun r : dstate toy_state * bytes * Z =>
+           let '(st, out, pk) := r in TL [t_bytes out; TI pk; TI (zlen (buf st))])
+        (worker_peak mtoy_dstep (Z.to_nat (of_TI (tnth t 0)))
+           (init_state (map t_toy_state (of_TL (tnth t 1))) (map of_TI (of_TL (tnth t 2)))
+                       (of_TI (tnth t 3)) (of_TI (tnth t 4)) (of_bytes (tnth t 5)))
+           (of_TI (tnth t 6)) (of_TI (tnth t 7))
+           (map (fun x => Z.to_nat (of_TI x)) (of_TL (tnth t 8)))).
+
+(* args: [fuel; states (k pending); fd; block_size; sched] *)
+Definition mem_ctoy_compress_t (t : tree) : tree :=
+  t_res (fun r : list ctoy_state * bytes * Z * Z * list (Z * Z) =>
+           let '(ss, w, n, pk, log) := r in
+           TL [t_bytes w; TI n; TI pk; TL (map (fun p => TL [TI (fst p); TI (snd p)]) log);
+               TL (map (fun s => t_bytes (snd s)) ss)])
+        (compress_loop ctoy_step (Z.to_nat (of_TI (tnth t 0)))
+           (map (fun x => (of_TI (tnth x 0), of_bytes (tnth x 1))) (of_TL (tnth t 1)))
+           (of_bytes (tnth t 2)) (of_TI (tnth t 3))
+           (map (fun x => Z.to_nat (of_TI x)) (of_TL (tnth t 4)))).
+
+Definition mem_dispatch (fn : Z) (a : tree) : tree :=
+  match fn with
+  (* FN 340 mem_toy_trace : (states unpacksizes input_size block_size packed calls) -> list (res (out (len_out len_buf pos read len_tmp managed live chain_peak))) *)
+  | 340 => mem_toy_trace_t a
+  (* FN 341 mem_toy_worker : (fuel states unpacksizes input_size block_size packed size max_block sched) -> res (out peak len_buf) *)
+  | 341 => mem_toy_worker_t a
+  (* FN 342 mem_ctoy_compress : (fuel states fd block_size sched) -> res (written insize peak log pendings) *)
+  | 342 => mem_ctoy_compress_t a
+  (* FN 343 mem_exp_iter : (r c0 n x) -> int *)
+  | 343 => TI (exp_iter (of_TI (tnth a 0)) (of_TI (tnth a 1)) (Z.to_nat (of_TI (tnth a 2))) (of_TI (tnth a 3)))
+  | _ => TL [TI (-2)]
+  end.
+
+(* ===================================================================== *)
+(*                              PART 2 : PROOFS                          *)
+(* ===================================================================== *)
+
+Lemma zlen_repeatZ (x : Z) (k : nat) : zlen (repeatZ x k) = Z.of_nat k.
+Proof. unfold zlen. induction k as [|k IH]; simpl; [reflexivity|]. lia. Qed.
+
+Lemma zlen_rep_each (k : nat) (l : bytes) : zlen (rep_each k l) = Z.of_nat k * zlen l.
+Proof.
+  induction l as [|x l IH]; simpl; [rewrite zlen_nil; lia|].
+  rewrite zlen_app, zlen_repeatZ, IH. unfold zlen; simpl length. lia.
+Qed.
+
+Lemma zlen_firstn_le (n : nat) (l : bytes) : zlen (firstn n l) <= Z.of_nat n.
+Proof. unfold zlen. rewrite firstn_length. lia. Qed.
+
+Section AcctProofs.
+  Variable stage_st : Type.
+  Variable dstep : stage_st -> bytes -> Z -> stage_st * bytes.
+  Variable held : stage_st -> Z.
+
+  Local Notation dst := (dstate stage_st).
+
+  (* what one call does to the carry-over buffer *)
+  Definition buf_case (st st' : dst) (ml : Z) (data tmp : bytes) : Prop :=
+    let cur := zlen (buf st) - pos st in
+    (* enough in _buf: nothing read, nothing decoded *)
+    (0 <= ml <= cur /\ buf st' = buf st /\ pos st' = pos st + ml /\ data = [] /\ tmp = [] /\
+     stages st' = stages st)
+    \/ (* everything handed out *)
+    ((ml < 0 \/ cur + zlen tmp <= ml) /\ buf st' = [] /\ pos st' = 0 /\
+     chain_run dstep (stages st) (unpacked st) (unpacksizes st) data ml
+       = Ok (stages st', unpacked st', tmp))
+    \/ (* surplus of tmp kept *)
+    (0 <= cur < ml /\ ml < cur + zlen tmp /\ pos st' = 0 /\
+     zlen (buf st') = cur + zlen tmp - ml /\
+     chain_run dstep (stages st) (unpacked st) (unpacksizes st) data ml
+       = Ok (stages st', unpacked st', tmp)).
+
+  (* Decomp.decompress_spec with the max_length of the chain call and the
+     branch taken exposed *)
+  Lemma decompress_spec_ml (st st' : dst) (ml : Z) (rd : nat) (out : bytes) :
+    buf_inv st ->
+    decompress dstep st ml rd = Ok (st', out) ->
+    exists data tmp,
+      buf_case st st' ml data tmp /\
+      consumed st' = consumed st + zlen data /\
+      zlen data <= Z.max 0 (Z.min (input_size st - consumed st) (block_size st)) /\
+      block_size st' = block_size st /\ input_size st' = input_size st /\
+      buf_inv st' /\
+      py_from (buf st) (pos st) ++ tmp = out ++ py_from (buf st') (pos st') /\
+      (0 <= ml -> zlen out <= ml).
+  Proof.
+    intros (Hpos & Hun) H. unfold decompress in H.
+    destruct (ml <? 0) eqn:Eneg.
+    - apply Z.ltb_lt in Eneg.
+      destruct (read_data st rd) as [st1 data] eqn:Hrd.
+      apply read_data_spec in Hrd.
+      destruct Hrd as (R1 & R2 & R3 & R4 & R5 & R6 & R7 & R8 & R9 & R10 & R11).
+      destruct (run_chain dstep st1 (unused st1 ++ data) ml) as [[st2 tmp]|e] eqn:Hrc;
+        simpl in H; [|discriminate].
+      apply run_chain_spec in Hrc.
+      destruct Hrc as (C1 & C2 & C3 & C4 & C5 & C6 & C7 & C8 & C9).
+      injection H as <- <-. simpl.
+      rewrite R6, Hun, app_nil_l in C1. rewrite R1, R2, R3 in C1.
+      rewrite Hun, zlen_nil in R11.
+      exists data, tmp. unfold buf_case, buf_inv. simpl.
+      split; [right; left; repeat split; auto|].
+      rewrite C3, R10, C5, R5, C4, R4, R7, R8, zlen_nil.
+      repeat split; try reflexivity; try lia.
+      rewrite py_from_0, app_nil_r. reflexivity.
+    - apply Z.ltb_ge in Eneg.
+      destruct (zlen (buf st) - pos st >=? ml) eqn:Ehave.
+      + assert (Hge : ml <= zlen (buf st) - pos st) by (apply Z.geb_le in Ehave; lia).
+        injection H as <- <-.
+        exists [], []. unfold buf_case, buf_inv. simpl.
+        rewrite zlen_nil, app_nil_r.
+        split; [left; repeat split; auto; lia|].
+        repeat split; try reflexivity; try lia; try assumption.
+        * apply py_from_split; lia.
+        * intros _. rewrite zlen_py_slice by lia. lia.
+      + assert (Hlt : zlen (buf st) - pos st < ml).
+        { destruct (Z.geb_spec (zlen (buf st) - pos st) ml); [discriminate|lia]. }
+        destruct (read_data st rd) as [st1 data] eqn:Hrd.
+        apply read_data_spec in Hrd.
+        destruct Hrd as (R1 & R2 & R3 & R4 & R5 & R6 & R7 & R8 & R9 & R10 & R11).
+        rewrite R6, Hun in H. change (zlen [] >? 0) with false in H. cbv iota in H.
+        destruct (run_chain dstep st1 data ml) as [[st2 tmp]|e] eqn:Hrc;
+          simpl in H; [|discriminate].
+        apply run_chain_spec in Hrc.
+        destruct Hrc as (C1 & C2 & C3 & C4 & C5 & C6 & C7 & C8 & C9).
+        rewrite R1, R2, R3 in C1. rewrite Hun, zlen_nil in R11.
+        assert (Hpf : zlen (py_from (buf st) (pos st)) = zlen (buf st) - pos st)
+          by (apply zlen_py_from; lia).
+        pose proof (zlen_nonneg tmp) as Htn.
+        destruct (zlen (buf st) - pos st + zlen tmp <=? ml) eqn:Efit.
+        * apply Z.leb_le in Efit. injection H as <- <-.
+          exists data, tmp. unfold buf_case, buf_inv. simpl.
+          split; [right; left; repeat split; auto|].
+          rewrite C3, R10, C5, R5, C4, R4, C6, R6, C7, R7, C8, R8, zlen_nil.
+          repeat split; try reflexivity; try lia; try assumption.
+          -- rewrite py_from_0, app_nil_r. reflexivity.
+          -- intros _. rewrite zlen_app, Hpf. lia.
+        * apply Z.leb_gt in Efit. injection H as <- <-.
+          exists data, tmp. unfold buf_case, buf_inv. simpl.
+          assert (Hbl : zlen (py_from tmp (ml - (zlen (buf st) - pos st)))
+                        = zlen (buf st) - pos st + zlen tmp - ml)
+            by (rewrite zlen_py_from by lia; lia).
+          split; [right; right; repeat split; auto; lia|].
+          rewrite C3, R10, C5, R5, C4, R4, C6, R6, C7, R7, C8, R8.
+          repeat split; try reflexivity; try lia; try assumption.
+          -- rewrite py_from_0, <- app_assoc, py_to_from by lia. reflexivity.
+          -- intros _. rewrite zlen_app, Hpf, zlen_py_to by lia. lia.
+  Qed.
+
+  (* tmp_len is the length of tmp *)
+  Lemma tmp_len_eq (st st' : dst) (out tmp : bytes) :
+    buf_inv st -> buf_inv st' ->
+    py_from (buf st) (pos st) ++ tmp = out ++ py_from (buf st') (pos st') ->
+    tmp_len st st' out = zlen tmp.
+  Proof.
+    intros (Hp & _) (Hp' & _) Hflow. unfold tmp_len.
+    apply (f_equal zlen) in Hflow. rewrite !zlen_app, !zlen_py_from in Hflow by lia. lia.
+  Qed.
+
+  Lemma chain_run_nonnil (ss : list stage_st) up us data ml ss' up' out :
+    chain_run dstep ss up us data ml = Ok (ss', up', out) -> ss <> [] -> ss' <> [].
+  Proof.
+    intros H Hne. apply chain_run_length in H. destruct H as (Hl & _).
+    destruct ss' as [|a b]; [|discriminate]. destruct ss; [congruence|discriminate].
+  Qed.
+
+  (* ==== 1. every stage honours max_length ============================== *)
+  Section Honour.
+    (* [honest s]: the decoder in state s honours max_length (lzma, bz2, PPMd);
+       only the LAST stage of the chain has to be honest *)
+    Variable honest : stage_st -> Prop.
+    Hypothesis honest_step : forall s c ml, honest s -> honest (fst (dstep s c ml)).
+    Hypothesis honours_max : forall s c ml,
+        honest s -> 0 <= ml -> zlen (snd (dstep s c ml)) <= ml.
+
+    Fixpoint last_ok (ss : list stage_st) : Prop :=
+      match ss with
+      | [] => False
+      | s :: t => match t with [] => honest s | _ :: _ => last_ok t end
+      end.
+
+    Lemma chain_run_out_le (ss : list stage_st) :
+      last_ok ss ->
+      forall up us data ml ss' up' out,
+        0 <= ml ->
+        chain_run dstep ss up us data ml = Ok (ss', up', out) ->
+        zlen out <= ml /\ last_ok ss'.
+    Proof.
+      induction ss as [|s ss IH]; intros Hok up us data ml ss' up' out Hml H; [destruct Hok|].
+      simpl in H.
+      destruct up as [|u up]; [discriminate|]. destruct us as [|z us]; [discriminate|].
+      destruct (u <? z).
+      - pose proof (honours_max s data ml) as Hh. pose proof (honest_step s data ml) as Hs.
+        destruct (dstep s data ml) as [s1 o]. simpl in Hh, Hs.
+        destruct (chain_run dstep ss up us o ml) as [[[ss2 up2] d]|e] eqn:E;
+          simpl in H; [|discriminate].
+        injection H as <- _ <-.
+        destruct ss as [|s2 ss].
+        + simpl in E. injection E as <- _ <-. simpl in Hok. simpl. split; [apply Hh; assumption|apply Hs; exact Hok].
+        + destruct (IH Hok _ _ _ _ _ _ _ Hml E) as (Hle & Hok2).
+          split; [exact Hle|].
+          pose proof (chain_run_length _ dstep _ _ _ _ _ _ _ _ E) as (Hl & _).
+          destruct ss2 as [|a b]; [discriminate|]. exact Hok2.
+      - destruct (zlen data =? 0); [|discriminate].
+        destruct (chain_run dstep ss up us [] ml) as [[[ss2 up2] d]|e] eqn:E;
+          simpl in H; [|discriminate].
+        injection H as <- _ <-.
+        destruct ss as [|s2 ss].
+        + simpl in E. injection E as <- _ <-. rewrite zlen_nil. split; [exact Hml|exact Hok].
+        + destruct (IH Hok _ _ _ _ _ _ _ Hml E) as (Hle & Hok2).
+          split; [exact Hle|].
+          pose proof (chain_run_length _ dstep _ _ _ _ _ _ _ _ E) as (Hl & _).
+          destruct ss2 as [|a b]; [discriminate|]. exact Hok2.
+    Qed.
+
+    (* calls with max_length < 0 keep the last stage honest too *)
+    Lemma chain_run_last_ok (ss : list stage_st) :
+      last_ok ss ->
+      forall up us data ml ss' up' out,
+        chain_run dstep ss up us data ml = Ok (ss', up', out) -> last_ok ss'.
+    Proof.
+      induction ss as [|s ss IH]; intros Hok up us data ml ss' up' out H; [destruct Hok|].
+      simpl in H.
+      destruct up as [|u up]; [discriminate|]. destruct us as [|z us]; [discriminate|].
+      destruct (u <? z).
+      - pose proof (honest_step s data ml) as Hs.
+        destruct (dstep s data ml) as [s1 o]. simpl in Hs.
+        destruct (chain_run dstep ss up us o ml) as [[[ss2 up2] d]|e] eqn:E;
+          simpl in H; [|discriminate].
+        injection H as <- _ _.
+        destruct ss as [|s2 ss].
+        + simpl in E. injection E as <- _ _. simpl. apply Hs; exact Hok.
+        + pose proof (IH Hok _ _ _ _ _ _ _ E) as Hok2.
+          pose proof (chain_run_length _ dstep _ _ _ _ _ _ _ _ E) as (Hl & _).
+          destruct ss2 as [|a b]; [discriminate|]. exact Hok2.
+      - destruct (zlen data =? 0); [|discriminate].
+        destruct (chain_run dstep ss up us [] ml) as [[[ss2 up2] d]|e] eqn:E;
+          simpl in H; [|discriminate].
+        injection H as <- _ _.
+        destruct ss as [|s2 ss].
+        + simpl in E. injection E as <- _ _. exact Hok.
+        + pose proof (IH Hok _ _ _ _ _ _ _ E) as Hok2.
+          pose proof (chain_run_length _ dstep _ _ _ _ _ _ _ _ E) as (Hl & _).
+          destruct ss2 as [|a b]; [discriminate|]. exact Hok2.
+    Qed.
+
+    (* with a non-empty carry-over buffer: it never grows, the chunk and tmp
+       are bounded by max_length *)
+    Theorem carry_never_grows (st st' : dst) (ml : Z) (rd : nat) (out : bytes) :
+      buf_inv st -> last_ok (stages st) -> 0 <= ml ->
+      decompress dstep st ml rd = Ok (st', out) ->
+      buf_inv st' /\ last_ok (stages st') /\
+      zlen out <= ml /\ tmp_len st st' out <= ml /\
+      zlen (buf st') <= zlen (buf st) /\
+      read_len st st' <= Z.max 0 (block_size st) /\ block_size st' = block_size st.
+    Proof.
+      intros Hinv Hne Hml H.
+      destruct (decompress_spec_ml st st' ml rd out Hinv H)
+        as (data & tmp & Hcase & Hcons & Hdl & Hbs & His & Hinv' & Hflow & Hlen).
+      rewrite (tmp_len_eq st st' out tmp Hinv Hinv' Hflow).
+      unfold read_len. pose proof (zlen_nonneg (buf st)) as Hb0.
+      destruct Hcase as [(Hr & Hb & Hp & Hd & Ht & Hs)|[(Hr & Hb & Hp & Hc)|(Hr1 & Hr2 & Hp & Hb & Hc)]].
+      - subst tmp. rewrite Hb, Hs, zlen_nil.
+        split; [exact Hinv'|]. split; [exact Hne|]. split; [apply Hlen; exact Hml|].
+        repeat split; lia.
+      - destruct (chain_run_out_le _ Hne _ _ _ _ _ _ _ Hml Hc) as (Ht & Hok').
+        rewrite Hb, zlen_nil.
+        split; [exact Hinv'|]. split; [exact Hok'|].
+        split; [apply Hlen; exact Hml|]. repeat split; lia.
+      - destruct (chain_run_out_le _ Hne _ _ _ _ _ _ _ Hml Hc) as (Ht & Hok').
+        destruct Hinv as (Hpos & _).
+        split; [exact Hinv'|]. split; [exact Hok'|].
+        split; [apply Hlen; exact Hml|]. repeat split; lia.
+    Qed.
+
+    (* LIVE BYTES, one call from a state whose carry-over buffer is empty
+       (every state reachable from __init__, see clean_reachable):
+       at most 2*max_length + block_size bytes are managed by py7zr, whatever
+       the member size *)
+    Theorem live_bytes_bounded (st st' : dst) (ml : Z) (rd : nat) (out : bytes) :
+      clean st -> last_ok (stages st) -> 0 <= ml ->
+      decompress dstep st ml rd = Ok (st', out) ->
+      clean st' /\ last_ok (stages st') /\
+      zlen out <= ml /\ zlen (buf st') <= ml /\
+      managed st st' out <= 2 * ml + Z.max 0 (block_size st) /\
+      live held st st' out <= 2 * ml + Z.max 0 (block_size st) + sum_held held (stages st') /\
+      block_size st' = block_size st.
+    Proof.
+      intros (Hb & Hp & Hu) Hne Hml H.
+      assert (Hinv : buf_inv st) by (unfold buf_inv; rewrite Hb, Hp, zlen_nil; split; [lia|exact Hu]).
+      destruct (carry_never_grows st st' ml rd out Hinv Hne Hml H)
+        as ((Hp' & Hu') & Hne' & Hout & Htmp & Hbuf & Hrd & Hbs).
+      rewrite Hb, zlen_nil in Hbuf. pose proof (zlen_nonneg (buf st')) as Hb0.
+      assert (Hb' : buf st' = []) by (apply zlen_le0_nil; lia).
+      assert (Hcl : clean st').
+      { unfold clean. rewrite Hb' in Hp'. rewrite zlen_nil in Hp'.
+        split; [exact Hb'|]. split; [lia|exact Hu']. }
+      assert (Hm : managed st st' out <= 2 * ml + Z.max 0 (block_size st)).
+      { unfold managed. rewrite Hb, Hb', zlen_nil. lia. }
+      split; [exact Hcl|]. split; [exact Hne'|]. split; [exact Hout|].
+      split; [rewrite Hb', zlen_nil; exact Hml|]. split; [exact Hm|].
+      split; [unfold live; lia|exact Hbs].
+    Qed.
+
+    (* calls with max_length < 0 ("everything of this block") also leave the
+       buffer empty, so [clean] is an invariant of every call sequence *)
+    Lemma clean_step (st st' : dst) (ml : Z) (rd : nat) (out : bytes) :
+      clean st -> last_ok (stages st) ->
+      decompress dstep st ml rd = Ok (st', out) -> clean st' /\ last_ok (stages st').
+    Proof.
+      intros Hc Hne H. destruct (Z.ltb_spec ml 0) as [Hneg|Hge].
+      - destruct Hc as (Hb & Hp & Hu).
+        assert (Hinv : buf_inv st) by (unfold buf_inv; rewrite Hb, Hp, zlen_nil; split; [lia|exact Hu]).
+        destruct (decompress_spec_ml st st' ml rd out Hinv H)
+          as (data & tmp & Hcase & _ & _ & _ & _ & (_ & Hu') & _ & _).
+        destruct Hcase as [(Hr & _)|[(_ & Hb' & Hp' & Hcr)|(Hr & _)]]; try lia.
+        split; [repeat split; assumption|]. eapply chain_run_last_ok; eassumption.
+      - destruct (live_bytes_bounded st st' ml rd out Hc Hne Hge H) as (Hc' & Hne' & _).
+        split; assumption.
+    Qed.
+
+    Theorem clean_reachable (calls : list (Z * nat)) :
+      forall (st st' : dst) (outs : bytes),
+        fresh st -> last_ok (stages st) ->
+        decompress_seq dstep st calls = Ok (st', outs) -> clean st' /\ last_ok (stages st').
+    Proof.
+      assert (G : forall (st st' : dst) (outs : bytes),
+                 clean st -> last_ok (stages st) ->
+                 decompress_seq dstep st calls = Ok (st', outs) -> clean st' /\ last_ok (stages st')).
+      { induction calls as [|[ml rd] calls IH]; intros st st' outs Hc Hne H; simpl in H.
+        - injection H as <- _. split; assumption.
+        - destruct (decompress dstep st ml rd) as [[st1 o]|e] eqn:Hd; simpl in H; [|discriminate].
+          destruct (decompress_seq dstep st1 calls) as [[st2 os]|e] eqn:Hs; simpl in H; [|discriminate].
+          injection H as <- _.
+          destruct (clean_step st st1 ml rd o Hc Hne Hd) as (Hc1 & Hne1).
+          eapply IH; eassumption. }
+      intros st st' outs (_ & Hu & Hb & Hp) Hne H.
+      eapply G; [|exact Hne|exact H]. repeat split; assumption.
+    Qed.
+
+    (* the caller loop Worker.decompress: ml = min(remaining, max_block) *)
+    Theorem worker_live_bounded (fuel : nat) :
+      forall (st st' : dst) (size mb : Z) (sched : list nat) (out : bytes) (pk : Z),
+        clean st -> last_ok (stages st) -> 0 <= mb ->
+        worker_peak dstep fuel st size mb sched = Ok (st', out, pk) ->
+        pk <= 2 * mb + Z.max 0 (block_size st) /\ clean st' /\ block_size st' = block_size st.
+    Proof.
+      induction fuel as [|fuel IH]; intros st st' size mb sched out pk Hc Hne Hmb H;
+        simpl in H; destruct (size >? 0) eqn:Es;
+        try discriminate;
+        try (injection H as <- _ <-; split; [lia|split; [exact Hc|reflexivity]]).
+      apply Z.gtb_lt in Es.
+      destruct (decompress dstep st (Z.min size mb) (sched_hd st sched)) as [[st1 tmp]|e] eqn:Hd;
+        simpl in H; [|discriminate].
+      assert (Hml : 0 <= Z.min size mb) by lia.
+      destruct (live_bytes_bounded st st1 _ _ tmp Hc Hne Hml Hd)
+        as (Hc1 & Hne1 & _ & _ & Hm & _ & Hbs).
+      destruct ((if zlen tmp >? 0 then size - zlen tmp else size) <=? 0).
+      - injection H as <- _ <-. split; [lia|split; assumption].
+      - destruct (worker_peak dstep fuel st1 _ mb (tl sched)) as [[[st2 o2] pk2]|e] eqn:Hw;
+          simpl in H; [|discriminate].
+        injection H as <- _ <-.
+        destruct (IH _ _ _ _ _ _ _ Hc1 Hne1 Hmb Hw) as (Hpk & Hc2 & Hbs2).
+        rewrite Hbs in Hpk. split; [lia|]. split; [exact Hc2|congruence].
+    Qed.
+  End Honour.
+
+  (* worker_peak is Worker.decompress (Decomp.worker_decompress) plus a counter *)
+  Lemma worker_peak_erase (fuel : nat) :
+    forall (st : dst) (size mb : Z) (sched : list nat),
+      worker_decompress dstep fuel st size mb sched =
+      match worker_peak dstep fuel st size mb sched with
+      | Ok (st', out, _) => Ok (st', out) | Err e => Err e end.
+  Proof.
+    induction fuel as [|fuel IH]; intros st size mb sched; simpl;
+      destruct (size >? 0); try reflexivity.
+    destruct (decompress dstep st (Z.min size mb) (sched_hd st sched)) as [[st1 tmp]|e];
+      simpl; [|reflexivity].
+    destruct ((if zlen tmp >? 0 then size - zlen tmp else size) <=? 0); [reflexivity|].
+    rewrite IH.
+    destruct (worker_peak dstep fuel st1 _ mb (tl sched)) as [[[st2 o2] pk2]|e]; reflexivity.
+  Qed.
+
+  (* ==== 2. stages that ignore max_length: bounded by block x expansion === *)
+  Section Expansion.
+    (* [tame s]: whatever max_length is, one call returns at most r*len(input)+c0
+       bytes (Copy, BCJ, AES: r = 1; Deflate: r ~ 1030; Zstd, Brotli: far more) *)
+    Variable tame : stage_st -> Prop.
+    Variables r c0 : Z.
+    Hypothesis r_ge1 : 1 <= r.
+    Hypothesis c0_nonneg : 0 <= c0.
+    Hypothesis tame_step : forall s c ml, tame s -> tame (fst (dstep s c ml)).
+    Hypothesis expansion : forall s c ml,
+        tame s -> zlen (snd (dstep s c ml)) <= r * zlen c + c0.
+
+    Local Notation E := (exp_iter r c0).
+
+    Lemma exp_iter_mono (n : nat) : forall x y, x <= y -> E n x <= E n y.
+    Proof. induction n as [|n IH]; intros x y Hxy; simpl; [exact Hxy|]. apply IH. nia. Qed.
+
+    Lemma exp_iter_ge (n : nat) : forall x, 0 <= x -> x <= E n x.
+    Proof.
+      induction n as [|n IH]; intros x Hx; simpl; [lia|].
+      assert (H1 : x <= r * x + c0) by nia.
+      pose proof (IH (r * x + c0) ltac:(lia)). lia.
+    Qed.
+
+    Lemma chain_run_exp (ss : list stage_st) :
+      Forall tame ss ->
+      forall up us data ml ss' up' out,
+        chain_run dstep ss up us data ml = Ok (ss', up', out) ->
+        zlen out <= E (length ss) (zlen data) /\ Forall tame ss' /\
+        chain_peak dstep ss up us data ml <= 2 * E (length ss) (zlen data).
+    Proof.
+      induction ss as [|s ss IH]; intros Ht up us data ml ss' up' out H; simpl in H.
+      - injection H as <- _ <-. cbn [length exp_iter chain_peak]. pose proof (zlen_nonneg data).
+        split; [lia|]. split; [apply Forall_nil|lia].
+      - destruct up as [|u up]; [discriminate|]. destruct us as [|z us]; [discriminate|].
+        inversion Ht as [|? ? Hts Htss]; subst. cbn [length exp_iter chain_peak].
+        pose proof (zlen_nonneg data) as Hd0.
+        destruct (u <? z).
+        + pose proof (expansion s data ml Hts) as Hx. pose proof (tame_step s data ml Hts) as Hs1.
+          destruct (dstep s data ml) as [s1 o]. simpl in Hx, Hs1.
+          destruct (chain_run dstep ss up us o ml) as [[[ss2 up2] d]|e] eqn:Ec;
+            simpl in H; [|discriminate].
+          injection H as <- _ <-.
+          destruct (IH Htss _ _ _ _ _ _ _ Ec) as (Hle & Ht2 & Hpk).
+          pose proof (exp_iter_mono (length ss) _ _ Hx) as Hm.
+          pose proof (zlen_nonneg o) as Ho0.
+          pose proof (exp_iter_ge (length ss) (r * zlen data + c0) ltac:(nia)) as Hg.
+          split; [lia|]. split; [apply Forall_cons; assumption|]. nia.
+        + destruct (zlen data =? 0) eqn:Ez; [|discriminate].
+          apply Z.eqb_eq in Ez.
+          destruct (chain_run dstep ss up us [] ml) as [[[ss2 up2] d]|e] eqn:Ec;
+            simpl in H; [|discriminate].
+          injection H as <- _ <-.
+          destruct (IH Htss _ _ _ _ _ _ _ Ec) as (Hle & Ht2 & Hpk).
+          rewrite zlen_nil in Hle, Hpk.
+          pose proof (exp_iter_mono (length ss) 0 (r * zlen data + c0) ltac:(nia)) as Hm.
+          split; [lia|]. split; [apply Forall_cons; assumption|lia].
+    Qed.
+
+    (* CARRY-OVER BUFFER, any chain: after a call _buf holds at most what one
+       input block expands to -- block_size x ratio, not the declared output *)
+    Theorem carry_bounded_general (st st' : dst) (ml : Z) (rd : nat) (out : bytes) :
+      buf_inv st -> Forall tame (stages st) ->
+      decompress dstep st ml rd = Ok (st', out) ->
+      let B := E (length (stages st)) (Z.max 0 (block_size st)) in
+      zlen (buf st') <= Z.max (zlen (buf st)) B /\
+      tmp_len st st' out <= B /\
+      buf_inv st' /\ Forall tame (stages st') /\
+      length (stages st') = length (stages st) /\ block_size st' = block_size st /\
+      read_len st st' <= Z.max 0 (block_size st) /\
+      (0 <= ml -> zlen out <= ml).
+    Proof.
+      intros Hinv Ht H B.
+      destruct (decompress_spec_ml st st' ml rd out Hinv H)
+        as (data & tmp & Hcase & Hcons & Hdl & Hbs & His & Hinv' & Hflow & Hlen).
+      rewrite (tmp_len_eq st st' out tmp Hinv Hinv' Hflow).
+      unfold read_len. pose proof (zlen_nonneg (buf st)) as Hb0.
+      assert (HB0 : 0 <= B) by (pose proof (exp_iter_ge (length (stages st)) (Z.max 0 (block_size st))); lia).
+      assert (Hrun : forall ml', chain_run dstep (stages st) (unpacked st) (unpacksizes st) data ml'
+                         = Ok (stages st', unpacked st', tmp) ->
+                     zlen tmp <= B /\ Forall tame (stages st') /\
+                     length (stages st') = length (stages st)).
+      { intros ml' Hc. destruct (chain_run_exp _ Ht _ _ _ _ _ _ _ Hc) as (Hle & Ht' & _).
+        pose proof (chain_run_length _ dstep _ _ _ _ _ _ _ _ Hc) as (Hl & _).
+        split; [|split; assumption].
+        eapply Z.le_trans; [exact Hle|]. apply exp_iter_mono. lia. }
+      destruct Hcase as [(Hr & Hb & Hp & Hd & Htm & Hs)|[(Hr & Hb & Hp & Hc)|(Hr1 & Hr2 & Hp & Hb & Hc)]].
+      - subst tmp. rewrite Hb, Hs, zlen_nil. repeat split; try assumption; try lia; apply Hinv'.
+      - destruct (Hrun _ Hc) as (Htl & Ht' & Hl). rewrite Hb, zlen_nil.
+        repeat split; try assumption; try lia; apply Hinv'.
+      - destruct (Hrun _ Hc) as (Htl & Ht' & Hl).
+        repeat split; try assumption; try lia; apply Hinv'.
+    Qed.
+
+    (* the bytes py7zr manages during one call, any chain *)
+    Theorem live_bounded_general (st st' : dst) (ml : Z) (rd : nat) (out : bytes) :
+      buf_inv st -> Forall tame (stages st) -> 0 <= ml ->
+      decompress dstep st ml rd = Ok (st', out) ->
+      let B := E (length (stages st)) (Z.max 0 (block_size st)) in
+      zlen (buf st) <= B ->
+      managed st st' out <= 3 * B + ml + Z.max 0 (block_size st) /\
+      call_chain_peak dstep st st' ml <= 2 * B /\ zlen (buf st') <= B.
+    Proof.
+      intros Hinv Ht Hml H B HbB.
+      destruct (carry_bounded_general st st' ml rd out Hinv Ht H)
+        as (Hb' & Htmp & _ & _ & _ & _ & Hrd & Hout).
+      fold B in Hb', Htmp. specialize (Hout Hml).
+      split; [unfold managed; lia|]. split; [|lia].
+      assert (HB0 : 0 <= B) by (pose proof (exp_iter_ge (length (stages st)) (Z.max 0 (block_size st))); lia).
+      unfold call_chain_peak.
+      destruct ((0 <=? ml) && (zlen (buf st) - pos st >=? ml)) eqn:Eb; [lia|].
+      destruct (decompress_spec_ml st st' ml rd out Hinv H)
+        as (data & tmp & Hcase & Hcons & Hdl & _ & _ & _ & _ & _).
+      assert (Hrl : read_len st st' = zlen data) by (unfold read_len; lia).
+      pose proof (zlen_nonneg data) as Hd0.
+      set (d := firstn (Z.to_nat (read_len st st')) (fp_rest st)).
+      assert (Hd : zlen d <= zlen data).
+      { unfold d. rewrite Hrl. eapply Z.le_trans; [apply zlen_firstn_le|]. lia. }
+      pose proof (zlen_nonneg d) as Hdd.
+      (* the bound on chain_peak holds for any input of that size *)
+      assert (G : forall ss, Forall tame ss -> forall up us x ml',
+                   chain_peak dstep ss up us x ml' <= 2 * E (length ss) (zlen x)).
+      { induction ss as [|s ss IH]; intros Hts up us x ml'; cbn [length exp_iter chain_peak].
+        - pose proof (zlen_nonneg x). lia.
+        - inversion Hts as [|? ? Hs Hss]; subst.
+          pose proof (zlen_nonneg x) as Hx0.
+          pose proof (exp_iter_ge (length ss) (r * zlen x + c0) ltac:(nia)) as Hg.
+          destruct up as [|u up]; [lia|]. destruct us as [|z us]; [lia|].
+          destruct (u <? z).
+          + pose proof (expansion s x ml' Hs) as Hx.
+            destruct (dstep s x ml') as [s1 o]. simpl in Hx.
+            pose proof (IH Hss up us o ml') as Hi.
+            pose proof (exp_iter_mono (length ss) _ _ Hx). pose proof (zlen_nonneg o). nia.
+          + destruct (zlen x =? 0); [|lia].
+            pose proof (IH Hss up us [] ml') as Hi. rewrite zlen_nil in Hi.
+            pose proof (exp_iter_mono (length ss) 0 (r * zlen x + c0) ltac:(nia)). lia. }
+      eapply Z.le_trans; [apply G; exact Ht|].
+      assert (E (length (stages st)) (zlen d) <= B) by (apply exp_iter_mono; lia). lia.
+    Qed.
+
+    (* ... and along every call sequence from a fresh decompressor *)
+    Theorem carry_bounded_seq (calls : list (Z * nat)) :
+      forall (st st' : dst) (outs : bytes),
+        fresh st -> Forall tame (stages st) ->
+        decompress_seq dstep st calls = Ok (st', outs) ->
+        zlen (buf st') <= E (length (stages st)) (Z.max 0 (block_size st)).
+    Proof.
+      assert (G : forall (st st' : dst) (outs : bytes) n bs,
+                 buf_inv st -> Forall tame (stages st) ->
+                 length (stages st) = n -> block_size st = bs ->
+                 zlen (buf st) <= E n (Z.max 0 bs) ->
+                 decompress_seq dstep st calls = Ok (st', outs) ->
+                 zlen (buf st') <= E n (Z.max 0 bs)).
+      { induction calls as [|[ml rd] calls IH]; intros st st' outs n bs Hinv Ht Hn Hbs Hb H; simpl in H.
+        - injection H as <- _. exact Hb.
+        - destruct (decompress dstep st ml rd) as [[st1 o]|e] eqn:Hd; simpl in H; [|discriminate].
+          destruct (decompress_seq dstep st1 calls) as [[st2 os]|e] eqn:Hs; simpl in H; [|discriminate].
+          injection H as <- _.
+          destruct (carry_bounded_general st st1 ml rd o Hinv Ht Hd)
+            as (Hb1 & _ & Hinv1 & Ht1 & Hl1 & Hbs1 & _ & _).
+          rewrite Hn, Hbs in Hb1.
+          eapply (IH st1 st2 os n bs); try eassumption; try lia. }
+      intros st st' outs (_ & Hu & Hb & Hp) Ht H.
+      eapply G; try eassumption; try reflexivity.
+      - unfold buf_inv. rewrite Hb, Hp, zlen_nil. split; [lia|exact Hu].
+      - rewrite Hb, zlen_nil.
+        pose proof (exp_iter_ge (length (stages st)) (Z.max 0 (block_size st))). lia.
+    Qed.
+
+    (* a single coder: r * block_size + c0 *)
+    Corollary carry_bounded_single (st st' : dst) (calls : list (Z * nat)) (outs : bytes) :
+      fresh st -> Forall tame (stages st) -> length (stages st) = 1%nat ->
+      decompress_seq dstep st calls = Ok (st', outs) ->
+      zlen (buf st') <= r * Z.max 0 (block_size st) + c0.
+    Proof.
+      intros Hf Ht Hl H. pose proof (carry_bounded_seq calls st st' outs Hf Ht H) as Hb.
+      rewrite Hl in Hb. exact Hb.
+    Qed.
+  End Expansion.
+
+  (* ==== 3. memory inside the first decoder: at most what it was fed ====== *)
+  Section Held.
+    (* a decoder retains at most the input it was given (lzma/bz2 keep the
+       unconsumed part of every block when max_length stops them early) *)
+    Hypothesis held_step : forall s c ml, held (fst (dstep s c ml)) <= held s + zlen c.
+
+    Lemma chain_run_head (s : stage_st) (ss : list stage_st) up us data ml ss' up' out :
+      chain_run dstep (s :: ss) up us data ml = Ok (ss', up', out) ->
+      exists s' t', ss' = s' :: t' /\ held s' <= held s + zlen data.
+    Proof.
+      simpl. intros H.
+      destruct up as [|u up]; [discriminate|]. destruct us as [|z us]; [discriminate|].
+      pose proof (zlen_nonneg data) as Hd0.
+      destruct (u <? z).
+      - pose proof (held_step s data ml) as Hh.
+        destruct (dstep s data ml) as [s1 o]. simpl in Hh.
+        destruct (chain_run dstep ss up us o ml) as [[[ss2 up2] d]|e]; simpl in H; [|discriminate].
+        injection H as <- _ _. exists s1, ss2. split; [reflexivity|exact Hh].
+      - destruct (zlen data =? 0); [|discriminate].
+        destruct (chain_run dstep ss up us [] ml) as [[[ss2 up2] d]|e]; simpl in H; [|discriminate].
+        injection H as <- _ _. exists s, ss2. split; [reflexivity|lia].
+    Qed.
+
+    Theorem first_stage_held_bounded (L0 : Z) (calls : list (Z * nat)) :
+      forall (st st' : dst) (outs : bytes) (s0 : stage_st) (t0 : list stage_st),
+        book_inv L0 st -> consumed st <= input_size st -> stages st = s0 :: t0 ->
+        decompress_seq dstep st calls = Ok (st', outs) ->
+        exists s' t', stages st' = s' :: t' /\
+                      held s' <= held s0 + (consumed st' - consumed st) /\
+                      consumed st' <= input_size st.
+    Proof.
+      induction calls as [|[ml rd] calls IH]; intros st st' outs s0 t0 Hbk Hle Hs H; simpl in H.
+      - injection H as <- _. exists s0, t0. split; [exact Hs|]. lia.
+      - destruct (decompress dstep st ml rd) as [[st1 o]|e] eqn:Hd; simpl in H; [|discriminate].
+        destruct (decompress_seq dstep st1 calls) as [[st2 os]|e] eqn:Hq; simpl in H; [|discriminate].
+        injection H as <- _.
+        destruct (decompress_book_inv _ dstep L0 st st1 ml rd o Hbk Hd)
+          as (Hbk1 & Hc01 & Hle1 & _ & His & _).
+        assert (Hinv : buf_inv st) by (destruct Hbk as (Hp & Hu & _); split; assumption).
+        destruct (decompress_spec_ml st st1 ml rd o Hinv Hd)
+          as (data & tmp & Hcase & Hcons & _).
+        assert (Hhd : exists s1 t1, stages st1 = s1 :: t1 /\ held s1 <= held s0 + zlen data).
+        { pose proof (zlen_nonneg data) as Hd0.
+          destruct Hcase as [(_ & _ & _ & _ & _ & Hss)|[(_ & _ & _ & Hc)|(_ & _ & _ & _ & Hc)]].
+          - exists s0, t0. split; [congruence|lia].
+          - rewrite Hs in Hc. apply chain_run_head in Hc. exact Hc.
+          - rewrite Hs in Hc. apply chain_run_head in Hc. exact Hc. }
+        destruct Hhd as (s1 & t1 & Hs1 & Hh1).
+        destruct (IH st1 st2 os s1 t1 Hbk1 (Hle1 Hle) Hs1 Hq) as (s' & t' & Hs' & Hh' & Hc').
+        exists s', t'. split; [exact Hs'|]. split; lia.
+    Qed.
+  End Held.
+
+End AcctProofs.
+
+(* ---- the toy stages meet the contracts (non-vacuity) -------------------- *)
+Definition mtoy_honest (s : toy_state) : Prop := fst (fst s) = 1 \/ fst (fst s) = 3.
+Definition mtoy_tame (K : Z) (s : toy_state) : Prop :=
+  fst (fst s) <> 1 /\ fst (fst s) <> 3 /\ snd (fst s) <= K.
+
+Lemma mtoy_tag (s : toy_state) (c : bytes) (ml : Z) :
+  fst (fst (fst (mtoy_dstep s c ml))) = fst (fst s) /\
+  snd (fst (fst (mtoy_dstep s c ml))) = snd (fst s).
+Proof.
+  destruct s as [[tag k] p]. unfold mtoy_dstep, toy_dstep.
+  destruct (tag =? 1); [split; reflexivity|].
+  destruct (tag =? 2); [split; reflexivity|].
+  destruct (tag =? 3); split; reflexivity.
+Qed.
+
+Lemma mtoy_honest_step (s : toy_state) (c : bytes) (ml : Z) :
+  mtoy_honest s -> mtoy_honest (fst (mtoy_dstep s c ml)).
+Proof. unfold mtoy_honest. destruct (mtoy_tag s c ml) as (-> & _). tauto. Qed.
+
+Lemma mtoy_honours (s : toy_state) (c : bytes) (ml : Z) :
+  mtoy_honest s -> 0 <= ml -> zlen (snd (mtoy_dstep s c ml)) <= ml.
+Proof.
+  destruct s as [[tag k] p]. unfold mtoy_honest, mtoy_dstep, toy_dstep. simpl fst.
+  intros [-> | ->] Hml.
+  - change (1 =? 1) with true. cbv iota. simpl snd.
+    destruct (ml <? 0) eqn:E; [apply Z.ltb_lt in E; lia|].
+    eapply Z.le_trans; [apply zlen_firstn_le|]. lia.
+  - change (3 =? 1) with false. change (3 =? 2) with false. change (3 =? 3) with true.
+    cbv iota. simpl snd. rewrite zlen_rep_each.
+    destruct (ml <? 0) eqn:E; [apply Z.ltb_lt in E; lia|]. simpl orb.
+    destruct (k <=? 0) eqn:Ek.
+    + apply Z.leb_le in Ek. replace (Z.to_nat k) with 0%nat by lia. lia.
+    + apply Z.leb_gt in Ek.
+      pose proof (zlen_firstn_le (Nat.min (length (p ++ c)) (Z.to_nat (ml / k))) (p ++ c)) as Hf.
+      pose proof (zlen_nonneg (firstn (Nat.min (length (p ++ c)) (Z.to_nat (ml / k))) (p ++ c))) as H0.
+      pose proof (Z.mul_div_le ml k ltac:(lia)) as Hd.
+      assert (0 <= ml / k) by (apply Z.div_pos; lia). nia.
+Qed.
+
+Lemma mtoy_tame_step (K : Z) (s : toy_state) (c : bytes) (ml : Z) :
+  mtoy_tame K s -> mtoy_tame K (fst (mtoy_dstep s c ml)).
+Proof. unfold mtoy_tame. destruct (mtoy_tag s c ml) as (-> & ->). tauto. Qed.
+
+Lemma mtoy_expansion (K : Z) (s : toy_state) (c : bytes) (ml : Z) :
+  mtoy_tame K s -> zlen (snd (mtoy_dstep s c ml)) <= Z.max 1 K * zlen c + 0.
+Proof.
+  destruct s as [[tag k] p]. unfold mtoy_tame, mtoy_dstep. simpl fst. simpl snd.
+  intros (H1 & H3 & HK). pose proof (zlen_nonneg c) as Hc.
+  destruct (tag =? 1) eqn:E1; [apply Z.eqb_eq in E1; lia|].
+  destruct (tag =? 2) eqn:E2.
+  - simpl snd. rewrite zlen_rep_each. nia.
+  - destruct (tag =? 3) eqn:E3; [apply Z.eqb_eq in E3; lia|]. simpl snd. nia.
+Qed.
+
+Lemma mtoy_held_step (s : toy_state) (c : bytes) (ml : Z) :
+  mtoy_held (fst (mtoy_dstep s c ml)) <= mtoy_held s + zlen c.
+Proof.
+  destruct s as [[tag k] p]. unfold mtoy_held, mtoy_dstep, toy_dstep. simpl snd.
+  pose proof (zlen_nonneg c) as Hc.
+  assert (Hsk : forall n, zlen (skipn n (p ++ c)) <= zlen p + zlen c).
+  { intros n. unfold zlen. rewrite skipn_length, app_length. lia. }
+  destruct (tag =? 1); [simpl; apply Hsk|].
+  destruct (tag =? 2); [simpl; lia|].
+  destruct (tag =? 3); [simpl; apply Hsk|simpl; lia].
+Qed.
+
+(* instances of the main theorems for the toy stages *)
+Theorem toy_live_bytes_bounded (st st' : dstate toy_state) (ml : Z) (rd : nat) (out : bytes) :
+  clean st -> last_ok toy_state mtoy_honest (stages st) -> 0 <= ml ->
+  decompress mtoy_dstep st ml rd = Ok (st', out) ->
+  clean st' /\ last_ok toy_state mtoy_honest (stages st') /\
+  zlen out <= ml /\ zlen (buf st') <= ml /\
+  managed st st' out <= 2 * ml + Z.max 0 (block_size st) /\
+  live mtoy_held st st' out <= 2 * ml + Z.max 0 (block_size st) + sum_held mtoy_held (stages st') /\
+  block_size st' = block_size st.
+Proof.
+  exact (live_bytes_bounded toy_state mtoy_dstep mtoy_held mtoy_honest
+           mtoy_honest_step mtoy_honours st st' ml rd out).
+Qed.
+
+Theorem toy_carry_bounded (K : Z) (st st' : dstate toy_state) (calls : list (Z * nat)) (outs : bytes) :
+  fresh st -> Forall (mtoy_tame K) (stages st) ->
+  decompress_seq mtoy_dstep st calls = Ok (st', outs) ->
+  zlen (buf st') <= exp_iter (Z.max 1 K) 0 (length (stages st)) (Z.max 0 (block_size st)).
+Proof.
+  intros Hf Ht H.
+  exact (carry_bounded_seq toy_state mtoy_dstep (mtoy_tame K) (Z.max 1 K) 0
+           ltac:(lia) ltac:(lia) (mtoy_tame_step K) (mtoy_expansion K) calls st st' outs Hf Ht H).
+Qed.
+
+(* ---- the bound really depends on the ratio ------------------------------ *)
+(* one call on a fresh decompressor whose chain returns more than max_length *)
+Lemma decompress_fresh_overflow {S : Type} (dstep : S -> bytes -> Z -> S * bytes)
+      (st st1 st2 : dstate S) (ml : Z) (rd : nat) (data tmp : bytes) :
+  buf st = [] -> pos st = 0 -> unused st = [] -> 0 < ml ->
+  read_data st rd = (st1, data) ->
+  run_chain dstep st1 data ml = Ok (st2, tmp) ->
+  ml < zlen tmp ->
+  exists st', decompress dstep st ml rd = Ok (st', py_to tmp ml) /\
+              buf st' = py_from tmp ml /\ pos st' = 0.
+Proof.
+  intros Hb Hp Hu Hml Hrd Hrc Hlt.
+  pose proof (read_data_spec _ _ _ _ _ Hrd) as (_ & _ & _ & _ & _ & R6 & R7 & R8 & _).
+  pose proof (run_chain_spec _ _ _ _ _ _ _ Hrc) as (_ & _ & _ & _ & _ & C6 & C7 & C8 & _).
+  unfold decompress.
+  destruct (ml <? 0) eqn:E0; [apply Z.ltb_lt in E0; lia|].
+  rewrite Hb, Hp, zlen_nil. change (0 - 0) with 0.
+  destruct (0 >=? ml) eqn:E1; [apply Z.geb_le in E1; lia|].
+  rewrite Hrd, R6, Hu. change (zlen [] >? 0) with false. cbv iota.
+  rewrite Hrc. simpl bind. cbv beta iota.
+  rewrite ?Z.add_0_l, ?Z.sub_0_r, C7, R7, Hb, C8, R8, Hp.
+  destruct (zlen tmp <=? ml) eqn:E2; [apply Z.leb_le in E2; lia|].
+  eexists. split; [reflexivity|]. split; reflexivity.
+Qed.
+
+(* EXACT carry-over of the expander: with ratio k and one input block of bsz
+   bytes, a call with any max_length below k*bsz leaves k*bsz - max_length
+   bytes in _buf *)
+Theorem expander_carry_exact (k bsz ml z : Z) (fp : bytes) :
+  0 < ml -> 0 < bsz -> bsz <= zlen fp -> ml < k * bsz -> 0 < z ->
+  exists st' out,
+    decompress mtoy_dstep (init_state [toy_st 2 k []] [z] (zlen fp) bsz fp) ml (length fp)
+      = Ok (st', out) /\
+    zlen out = ml /\ zlen (buf st') = k * bsz - ml /\ pos st' = 0.
+Proof.
+  intros Hml Hbs Hfp Hk Hz.
+  set (st := init_state [toy_st 2 k []] [z] (zlen fp) bsz fp).
+  set (data := firstn (Z.to_nat bsz) fp).
+  assert (Hdl : zlen data = bsz).
+  { unfold data, zlen in *. rewrite firstn_length. lia. }
+  assert (Hrd : exists st1, read_data st (length fp) = (st1, data) /\
+                            stages st1 = [toy_st 2 k []] /\ unpacked st1 = [0] /\
+                            unpacksizes st1 = [z]).
+  { unfold read_data, st, init_state. simpl. rewrite zlen_nil.
+    replace (Z.min (zlen fp - 0 - 0) (bsz - 0)) with bsz by lia.
+    destruct (bsz >? 0) eqn:E; [|destruct (Z.gtb_spec bsz 0); [discriminate|lia]].
+    unfold fp_read. replace (Nat.min (Z.to_nat bsz) (length fp)) with (Z.to_nat bsz)
+      by (unfold zlen in Hfp; lia).
+    eexists. split; [reflexivity|]. simpl. repeat split; reflexivity. }
+  destruct Hrd as (st1 & Hrd & Hs1 & Hu1 & Hz1).
+  set (tmp := rep_each (Z.to_nat k) data).
+  assert (Htl : zlen tmp = k * bsz).
+  { unfold tmp. rewrite zlen_rep_each, Hdl. nia. }
+  assert (Hrc : exists st2, run_chain mtoy_dstep st1 data ml = Ok (st2, tmp)).
+  { unfold run_chain. rewrite Hs1, Hu1, Hz1. simpl chain_run.
+    destruct (0 <? z) eqn:E; [|destruct (Z.ltb_spec 0 z); [discriminate|lia]].
+    unfold toy_st, mtoy_dstep. change (2 =? 1) with false. change (2 =? 2) with true.
+    cbv iota. simpl. eexists. reflexivity. }
+  destruct Hrc as (st2 & Hrc).
+  destruct (decompress_fresh_overflow mtoy_dstep st st1 st2 ml (length fp) data tmp
+              eq_refl eq_refl eq_refl Hml Hrd Hrc ltac:(lia)) as (st' & Hd & Hb' & Hp').
+  exists st', (py_to tmp ml). split; [exact Hd|].
+  split; [apply zlen_py_to; lia|]. split; [|exact Hp'].
+  rewrite Hb', zlen_py_from by lia. lia.
+Qed.
+
+(* no bound in terms of max_length and block_size alone: for any M some ratio
+   leaves more than M bytes in _buf after a call that read ONE byte *)
+Theorem carry_unbounded_in_ratio (ml M : Z) :
+  0 < ml ->
+  exists k st' out,
+    decompress mtoy_dstep (init_state [toy_st 2 k []] [k] 1 1 [7]) ml 1 = Ok (st', out) /\
+    zlen out = ml /\ M < zlen (buf st').
+Proof.
+  intros Hml. set (k := Z.max 0 M + ml + 1).
+  destruct (expander_carry_exact k 1 ml k [7] Hml ltac:(lia) ltac:(reflexivity) ltac:(lia) ltac:(lia))
+    as (st' & out & Hd & Ho & Hb & _).
+  exists k, st', out. split; [exact Hd|]. split; [exact Ho|]. lia.
+Qed.
+
+(* the statement of live_bytes_bounded without the contract is false:
+   block of 4 bytes, ratio 250, max_length 8 *)
+Theorem live_bytes_bounded_any_chain_refuted :
+  exists (st st' : dstate toy_state) (ml : Z) (rd : nat) (out : bytes),
+    clean st /\ stages st <> [] /\ 0 <= ml /\
+    decompress mtoy_dstep st ml rd = Ok (st', out) /\
+    zlen out = ml /\ zlen (buf st') = 250 * block_size st - ml /\
+    ~ zlen (buf st') <= ml /\
+    ~ managed st st' out <= 2 * ml + Z.max 0 (block_size st).
+Proof.
+  exists (init_state [toy_st 2 250 []] [100000] 8 4 [1; 2; 3; 4; 5; 6; 7; 8]).
+  eexists. exists 8, 8%nat. eexists.
+  split; [repeat split|]. split; [discriminate|]. split; [lia|].
+  split; [vm_compute; reflexivity|].
+  split; [vm_compute; reflexivity|]. split; [vm_compute; reflexivity|].
+  split; vm_compute; intros H; apply H; reflexivity.
+Qed.
+
+(* Worker.decompress over the same member (80 bytes declared, 8 packed bytes,
+   blocks of 4, chunks of 8): the expander's peak follows the ratio, the
+   honest expander's peak obeys 2*max_block + block_size *)
+Example worker_peak_expander :
+  mem_toy_worker_t (TL [TI 100; TL [TL [TI 2; TI 10; TL []]]; TL [TI 80]; TI 8; TI 4;
+                        TL (map TI [1; 2; 3; 4; 5; 6; 7; 8]); TI 80; TI 8; TL []])
+  = TL [TI 0; TL [t_bytes (rep_each 10 [1; 2; 3; 4; 5; 6; 7; 8]); TI 116; TI 32]].
+Proof. vm_compute. reflexivity. Qed.
+
+Example worker_peak_honest :
+  mem_toy_worker_t (TL [TI 100; TL [TL [TI 3; TI 10; TL []]]; TL [TI 80]; TI 8; TI 4;
+                        TL (map TI [1; 2; 3; 4; 5; 6; 7; 8]); TI 80; TI 10; TL []])
+  = TL [TI 0; TL [t_bytes (rep_each 10 [1; 2; 3; 4; 5; 6; 7; 8]); TI 24; TI 0]].
+Proof. vm_compute. reflexivity. Qed.
+
+(* hypotheses of live_bytes_bounded met by a non-trivial state: AES-like copy
+   stage in front of an honest expander *)
+Example live_bytes_bounded_applies :
+  let st := init_state [toy_st 0 0 []; toy_st 3 5 []] [100; 500] 9 4 [1; 2; 3; 4; 5; 6; 7; 8; 9] in
+  clean st /\ last_ok toy_state mtoy_honest (stages st) /\
+  exists st' out, decompress mtoy_dstep st 12 9 = Ok (st', out) /\ zlen out = 10 /\
+                  managed st st' out = 24 /\ sum_held mtoy_held (stages st') = 2.
+Proof.
+  cbv zeta. split; [repeat split|]. split; [right; reflexivity|].
+  eexists. eexists. split; [vm_compute; reflexivity|]. repeat split.
+Qed.
+
+Example carry_bounded_applies :
+  let st := init_state [toy_st 2 7 []; toy_st 0 0 []] [1000; 1000] 9 4 [1; 2; 3; 4; 5; 6; 7; 8; 9] in
+  fresh st /\ Forall (mtoy_tame 7) (stages st) /\
+  exists st' outs, decompress_seq mtoy_dstep st [(5, 9%nat); (5, 9%nat)] = Ok (st', outs) /\
+                   zlen (buf st') = 23 /\
+                   exp_iter (Z.max 1 7) 0 (length (stages st)) (Z.max 0 (block_size st)) = 196.
+Proof.
+  cbv zeta. split; [repeat split|].
+  split; [repeat constructor; simpl; lia|].
+  eexists. eexists. split; [vm_compute; reflexivity|]. split; reflexivity.
+Qed.
+
+(* ==== 4. write side: SevenZipCompressor.compress ========================= *)
+Section CompProofs.
+  Variable cstage : Type.
+  Variable cstep : cstage -> bytes -> cstage * bytes.
+  (* bytes buffered inside a compressor object, and the contract: it emits at
+     most what it holds plus what it is given (+eb), and never holds more than Hc *)
+  Variable cheld : cstage -> Z.
+  Variable cgood : cstage -> Prop.
+  Variables Hc eb : Z.
+  Hypothesis d_nonneg : 0 <= Hc + eb.
+  Hypothesis cgood_step : forall s c, cgood s -> cgood (fst (cstep s c)).
+  Hypothesis cheld_le : forall s, cgood s -> cheld s <= Hc.
+  Hypothesis cout_le : forall s c, cgood s -> zlen (snd (cstep s c)) <= cheld s + zlen c + eb.
+
+  Lemma cchain_bound (ss : list cstage) :
+    forall data ss' out pk,
+      Forall cgood ss -> cchain cstep ss data = (ss', out, pk) ->
+      Forall cgood ss' /\ length ss' = length ss /\
+      zlen out <= zlen data + Z.of_nat (length ss) * (Hc + eb) /\
+      pk <= 2 * zlen data + 2 * Z.of_nat (length ss) * (Hc + eb).
+  Proof.
+    induction ss as [|s ss IH]; intros data ss' out pk Hg H; cbn [cchain] in H.
+    - injection H as <- <- <-. pose proof (zlen_nonneg data). cbn [length].
+      split; [apply Forall_nil|]. split; [reflexivity|]. lia.
+    - inversion Hg as [|? ? Hs Hss]; subst.
+      pose proof (cout_le s data Hs) as Ho. pose proof (cheld_le s Hs) as Hh.
+      pose proof (cgood_step s data Hs) as Hs1.
+      destruct (cstep s data) as [s1 o]. simpl in Ho, Hs1.
+      destruct (cchain cstep ss o) as [[ss2 d] pk2] eqn:Ec.
+      injection H as <- <- <-.
+      destruct (IH o ss2 d pk2 Hss Ec) as (Hg2 & Hl & Hle & Hpk).
+      pose proof (zlen_nonneg data). pose proof (zlen_nonneg o).
+      cbn [length]. rewrite Nat2Z.inj_succ.
+      split; [apply Forall_cons; assumption|]. split; [lia|]. nia.
+  Qed.
+
+  (* WRITE SIDE: whatever the member size, one iteration holds at most one
+     block of input and the outputs of the stages it passes through *)
+  Theorem compress_live_bounded (fuel : nat) :
+    forall ss fd bs sched ss' w n pk log,
+      Forall cgood ss -> 0 <= bs ->
+      compress_loop cstep fuel ss fd bs sched = Ok (ss', w, n, pk, log) ->
+      pk <= 2 * bs + 2 * Z.of_nat (length ss) * (Hc + eb) /\
+      Forall (fun p => 0 < fst p <= bs) log /\ n <= zlen fd /\ Forall cgood ss'.
+  Proof.
+    induction fuel as [|fuel IH]; intros ss fd bs sched ss' w n pk log Hg Hbs H;
+      cbn [compress_loop] in H; [discriminate|].
+    unfold fd_read in H.
+    destruct (bs <? 0) eqn:E; [apply Z.ltb_lt in E; lia|].
+    unfold fp_read in H.
+    set (m := Nat.min (Z.to_nat bs) (hd (length fd) sched)) in H.
+    assert (Hdl : zlen (firstn m fd) <= bs) by (eapply Z.le_trans; [apply zlen_firstn_le|]; lia).
+    assert (Hsplit : zlen fd = zlen (firstn m fd) + zlen (skipn m fd)).
+    { rewrite <- zlen_app, firstn_skipn. reflexivity. }
+    pose proof (zlen_nonneg (firstn m fd)) as Hd0.
+    destruct (zlen (firstn m fd) =? 0) eqn:Ez.
+    - injection H as <- _ <- <- <-. pose proof (zlen_nonneg fd).
+      split; [nia|]. split; [apply Forall_nil|]. split; [lia|exact Hg].
+    - apply Z.eqb_neq in Ez.
+      destruct (cchain cstep ss (firstn m fd)) as [[ss1 out] pk1] eqn:Ec.
+      destruct (cchain_bound ss _ _ _ _ Hg Ec) as (Hg1 & Hl1 & _ & Hpk1).
+      destruct (compress_loop cstep fuel ss1 (skipn m fd) bs (tl sched))
+        as [[[[[ss2 w2] n2] pk2] log2]|e] eqn:El; simpl in H; [|discriminate].
+      injection H as <- _ <- <- <-.
+      destruct (IH _ _ _ _ _ _ _ _ _ Hg1 Hbs El) as (Hpk2 & Hlog & Hn & Hg2).
+      rewrite Hl1 in Hpk2.
+      split; [nia|]. split; [apply Forall_cons; [simpl; lia|exact Hlog]|].
+      split; [lia|exact Hg2].
+  Qed.
+End CompProofs.
+
+(* the toy compressor meets the contract *)
+Definition ctoy_good (K : Z) (s : ctoy_state) : Prop := 0 <= fst s <= K /\ zlen (snd s) <= fst s.
+
+Lemma ctoy_good_step (K : Z) (s : ctoy_state) (c : bytes) :
+  ctoy_good K s -> ctoy_good K (fst (ctoy_step s c)).
+Proof.
+  destruct s as [k p]. unfold ctoy_good, ctoy_step. simpl. intros (Hk & Hp).
+  split; [exact Hk|]. unfold zlen in *. rewrite skipn_length. lia.
+Qed.
+
+Lemma ctoy_held_le (K : Z) (s : ctoy_state) : ctoy_good K s -> ctoy_held s <= K.
+Proof. destruct s as [k p]. unfold ctoy_good, ctoy_held. simpl. lia. Qed.
+
+Lemma ctoy_out_le (K : Z) (s : ctoy_state) (c : bytes) :
+  ctoy_good K s -> zlen (snd (ctoy_step s c)) <= ctoy_held s + zlen c + 0.
+Proof.
+  destruct s as [k p]. unfold ctoy_good, ctoy_held, ctoy_step. simpl. intros _.
+  unfold zlen. rewrite firstn_length, app_length. lia.
+Qed.
+
+Theorem toy_compress_live_bounded (K : Z) (fuel : nat) ss fd bs sched ss' w n pk log :
+  0 <= K -> Forall (ctoy_good K) ss -> 0 <= bs ->
+  compress_loop ctoy_step fuel ss fd bs sched = Ok (ss', w, n, pk, log) ->
+  pk <= 2 * bs + 2 * Z.of_nat (length ss) * (K + 0) /\
+  Forall (fun p => 0 < fst p <= bs) log /\ n <= zlen fd /\ Forall (ctoy_good K) ss'.
+Proof.
+  intros HK. 
+  exact (compress_live_bounded ctoy_state ctoy_step ctoy_held (ctoy_good K) K 0 ltac:(lia)
+           (ctoy_good_step K) (ctoy_held_le K) (ctoy_out_le K) fuel ss fd bs sched ss' w n pk log).
+Qed.
+
+Example compress_loop_applies :
+  Forall (ctoy_good 3) [(2, []); (3, [])] /\
+  compress_loop ctoy_step 10 [(2, []); (3, [])] [1; 2; 3; 4; 5; 6; 7; 8; 9; 10] 4 [4%nat; 3%nat]
+  = Ok ([(2, [9; 10]); (3, [6; 7; 8])], [1; 2; 3; 4; 5], 10, 6, [(4, 0); (3, 2); (3, 3)]).
+Proof.
+  split; [|vm_compute; reflexivity].
+  apply Forall_cons; [unfold ctoy_good; simpl; rewrite zlen_nil; lia|].
+  apply Forall_cons; [unfold ctoy_good; simpl; rewrite zlen_nil; lia|apply Forall_nil].
+Qed.
+
+(* a negative block size makes fd.read return the whole member at once *)
+Theorem compress_negative_block_whole_member :
+  compress_loop ctoy_step 3 [(0, [])] [1; 2; 3; 4; 5; 6; 7; 8; 9; 10] (-1) []
+  = Ok ([(0, [])], [1; 2; 3; 4; 5; 6; 7; 8; 9; 10], 10, 20, [(10, 10)]).
+Proof. vm_compute. reflexivity. Qed.
+
+Print Assumptions live_bytes_bounded.
+Print Assumptions worker_live_bounded.
+Print Assumptions clean_reachable.
+Print Assumptions carry_bounded_general.
+Print Assumptions carry_bounded_seq.
+Print Assumptions live_bounded_general.
+Print Assumptions first_stage_held_bounded.
+Print Assumptions expander_carry_exact.
+Print Assumptions carry_unbounded_in_ratio.
+Print Assumptions live_bytes_bounded_any_chain_refuted.
+Print Assumptions compress_live_bounded.
+Print Assumptions toy_live_bytes_bounded.
+Print Assumptions toy_carry_bounded.
+Print Assumptions toy_compress_live_bounded.
